@@ -11,10 +11,10 @@ open C05 (bind_ok bind_ok_of)
 
 theorem chk_eq (s : HSt) (e : ILEffect) (bare : List String) (after : Bool) :
     chk s e bare after =
-      if (popPending s.pending (tmpsOfEffect e ++ bare)).1.isEmpty then (e, s)
-      else ((if after then .seqn ([e] ++ (popPending s.pending (tmpsOfEffect e ++ bare)).1.map Pend.render)
-             else .seqn ((popPending s.pending (tmpsOfEffect e ++ bare)).1.map Pend.render ++ [e])),
-            { s with pending := (popPending s.pending (tmpsOfEffect e ++ bare)).2 }) := rfl
+      if (popPending s.pending (bare ++ tmpsOfEffect e)).1.isEmpty then (e, s)
+      else ((if after then .seqn ([e] ++ (popPending s.pending (bare ++ tmpsOfEffect e)).1.map Pend.render)
+             else .seqn ((popPending s.pending (bare ++ tmpsOfEffect e)).1.map Pend.render ++ [e])),
+            { s with pending := (popPending s.pending (bare ++ tmpsOfEffect e)).2 }) := rfl
 
 theorem chk_snd (s : HSt) (e : ILEffect) (bare : List String) (after : Bool) :
     (chk s e bare after).2.hyb = s.hyb ∧ (chk s e bare after).2.imms = s.imms ∧
